@@ -185,10 +185,19 @@ class TextContent(BaseModel):
         converted_text = ""
         for char in text:
             unicode_int = ord(char)
-            if unicode_int <= 255 and unicode_int != 177:
+            if unicode_int < 128:
                 converted_text += char
+                continue
+            # Everything outside 7-bit ASCII is written as a \u escape: the file is
+            # declared \ansi, so raw (UTF-8) bytes would be read in the ANSI code page.
+            if unicode_int > 0xFFFF:
+                # Beyond the BMP: UTF-16 surrogate pair, each unit a signed 16-bit \u
+                offset = unicode_int - 0x10000
+                code_units = [0xD800 + (offset >> 10), 0xDC00 + (offset & 0x3FF)]
             else:
-                rtf_value = unicode_int - (0 if unicode_int < 32768 else 65536)
+                code_units = [unicode_int]
+            for unit in code_units:
+                rtf_value = unit - (0 if unit < 32768 else 65536)
                 converted_text += f"\\uc1\\u{rtf_value}*"
 
         text = converted_text
